@@ -311,42 +311,45 @@ Proof.
   rewrite is_empty_app, Hh. reflexivity.
 Qed.
 
+(* -p is only the default: every documented spelling, with or without -p *)
+Lemma cli_forms : forall f oport, form_ok f = true -> oport_ok oport = true -> port_ok (form_port f (default_port oport)) = true ->
+  cli_single (spell f) oport = COk (form_host f) (form_port f (default_port oport)).
+Proof.
+  intros f oport H Ho Hp. unfold cli_single. rewrite spell_nonempty, forms_parse by assumption.
+  unfold endpoint. rewrite form_host_nonempty, Ho, Hp by assumption. reflexivity.
+Qed.
 Lemma cli_forms_no_port_option : forall f, form_ok f = true -> port_ok (form_port f 22) = true ->
   cli_single (spell f) None = COk (form_host f) (form_port f 22).
-Proof.
-  intros f H Hp. unfold cli_single. rewrite spell_nonempty, forms_parse by assumption.
-  unfold endpoint. rewrite form_host_nonempty, Hp by assumption. reflexivity.
-Qed.
-
-Lemma cli_port_option_partial : forall f P, form_ok f = true -> form_has_port_or_brackets f = false -> port_ok P = true ->
-  cli_single (spell f) (Some P) = COk (form_host f) P.
-Proof.
-  intros f P H Hk Hp. pose proof (form_host_nonempty f H) as Hh.
-  destruct f; try discriminate; cbn [spell form_host] in *; unfold cli_single; rewrite Hh, Hp; reflexivity.
-Qed.
-
-Lemma cli_port_option_refuted : exists f P, form_ok f = true /\ port_ok P = true /\ port_ok (form_port f P) = true
-  /\ cli_single (spell f) (Some P) <> COk (form_host f) (form_port f P).
-Proof. exists (FHostPort "h" 2222), 22. repeat split; try reflexivity. vm_compute. discriminate. Qed.
-Lemma cli_port_option_bracket_refuted : exists f P, form_ok f = true /\ port_ok P = true
-  /\ cli_single (spell f) (Some P) <> COk (form_host f) (form_port f P).
-Proof. exists (FBr "::1"), 2222. repeat split; try reflexivity. vm_compute. discriminate. Qed.
+Proof. intros f H Hp. now apply (cli_forms f None). Qed.
+Lemma cli_port_option : forall f P, form_ok f = true -> port_ok P = true -> port_ok (form_port f P) = true ->
+  cli_single (spell f) (Some P) = COk (form_host f) (form_port f P).
+Proof. intros f P H HP Hp. now apply (cli_forms f (Some P)). Qed.
 
 (* every accepted command line carries a port in 1..65535 *)
 Lemma cli_single_port_ok : forall arg oport h p, cli_single arg oport = COk h p -> port_ok p = true.
 Proof.
   intros arg oport h p. unfold cli_single. destruct (is_empty arg); [discriminate|].
-  destruct oport as [P|].
-  - destruct (is_empty arg); [discriminate|]. destruct (port_ok P) eqn:E; [|discriminate]. intros [= _ <-]. assumption.
-  - destruct (parse_host_and_port arg 22) as [[h' p']|]; [|discriminate].
-    destruct (is_empty h'); [discriminate|]. destruct (port_ok p') eqn:E; [|discriminate]. intros [= _ <-]. assumption.
+  destruct (parse_host_and_port arg (default_port oport)) as [[h' p']|]; [|discriminate].
+  destruct (is_empty h'); [discriminate|]. destruct (negb (oport_ok oport)); [discriminate|].
+  destruct (port_ok p') eqn:E; [|discriminate]. intros [= _ <-]. assumption.
 Qed.
-Lemma cli_bad_port_option : forall arg P, port_ok P = false -> cli_single arg (Some P) = CExit.
-Proof. intros arg P H. unfold cli_single. destruct (is_empty arg); [reflexivity|]. rewrite H. reflexivity. Qed.
-Lemma cli_bad_port_named : forall f, form_ok f = true -> port_ok (form_port f 22) = false -> cli_single (spell f) None = CRaise ValueError.
+(* a bad -p never leads to an accepted target *)
+Lemma cli_bad_port_option : forall arg P h p, port_ok P = false -> cli_single arg (Some P) <> COk h p.
 Proof.
-  intros f H Hp. unfold cli_single. rewrite spell_nonempty, forms_parse by assumption.
-  unfold endpoint. rewrite form_host_nonempty, Hp by assumption. reflexivity.
+  intros arg P h p H. unfold cli_single. destruct (is_empty arg); [discriminate|].
+  destruct (parse_host_and_port arg (default_port (Some P))) as [[h' p']|]; [|discriminate].
+  destruct (is_empty h'); [discriminate|]. cbn [oport_ok]. rewrite H. discriminate.
+Qed.
+Lemma cli_bad_port_option_form : forall f P, form_ok f = true -> port_ok P = false -> cli_single (spell f) (Some P) = CExit.
+Proof.
+  intros f P H HP. unfold cli_single. rewrite spell_nonempty, forms_parse by assumption.
+  unfold endpoint. rewrite form_host_nonempty by assumption. cbn [oport_ok]. rewrite HP. reflexivity.
+Qed.
+Lemma cli_bad_port_named : forall f oport, form_ok f = true -> oport_ok oport = true -> port_ok (form_port f (default_port oport)) = false ->
+  cli_single (spell f) oport = CRaise ValueError.
+Proof.
+  intros f oport H Ho Hp. unfold cli_single. rewrite spell_nonempty, forms_parse by assumption.
+  unfold endpoint. rewrite form_host_nonempty, Ho, Hp by assumption. reflexivity.
 Qed.
 
 (* ------------------------------------------------------------------ strip, readlines, targets file *)
@@ -416,9 +419,13 @@ Proof.
   rewrite H1, IHs by assumption. reflexivity.
 Qed.
 
-Definition item_body (i : item) : string := match i with Blank => "" | Tgt a f b => (a ++ spell f ++ b)%string end.
+Definition item_body (i : item) : string := match i with Blank a => a | Tgt a f b => (a ++ spell f ++ b)%string end.
 Lemma render_item_body : forall i, render_item i = (item_body i ++ String c_nl "")%string.
 Proof. destruct i; cbn; [reflexivity|]. now rewrite !app_assoc_s. Qed.
+Lemma lstrip_spaces : forall s, forall_s is_space s = true -> lstrip s = "".
+Proof. induction s; intros H; cbn in *; [reflexivity|]. apply andb_true_iff in H as [H1 H2]. rewrite H1. auto. Qed.
+Lemma strip_spaces : forall s, forall_s is_space s = true -> strip s = "".
+Proof. intros s H. unfold strip. now rewrite lstrip_spaces. Qed.
 
 Lemma pad_props : forall s, forall_s pad_char s = true ->
   forall_s is_space s = true /\ forall_s (fun c => negb (Ascii.eqb c c_nl)) s = true /\ forall_s (fun c => negb (Ascii.eqb c c_cr)) s = true.
@@ -436,7 +443,7 @@ Qed.
 Lemma item_body_props : forall i, item_ok i = true ->
   forall_s (fun c => negb (Ascii.eqb c c_nl)) (item_body i) = true /\ forall_s (fun c => negb (Ascii.eqb c c_cr)) (item_body i) = true.
 Proof.
-  intros [|a f b] H; cbn [item_body item_ok] in *; [split; reflexivity|].
+  intros [a|a f b] H; cbn [item_body item_ok] in *; [destruct (pad_props a H) as (_ & A1 & A2); now split|].
   apply andb_true_iff in H as [H Hf]. apply andb_true_iff in H as [Ha Hb].
   destruct (pad_props a Ha) as (_ & A1 & A2). destruct (pad_props b Hb) as (_ & B1 & B2).
   destruct (nosp_props _ (spell_nosp f Hf)) as [S1 S2].
@@ -450,32 +457,36 @@ Proof.
   destruct (item_body_props i H1) as [_ ->]. rewrite IH by assumption. reflexivity.
 Qed.
 
-Lemma keep_line_nonempty : forall c r, keep_line (String c r ++ String c_nl "")%string = true.
+Lemma strip_tgt_line : forall a f b, forall_s pad_char a = true -> forall_s pad_char b = true -> form_ok f = true ->
+  strip ((a ++ spell f ++ b) ++ String c_nl "")%string = spell f.
 Proof.
-  intros c r. unfold keep_line. cbn [append]. apply andb_true_iff. split; apply negb_true_iff; apply String.eqb_neq.
-  - discriminate.
-  - intros E. injection E as _ E. destruct r; discriminate.
+  intros a f b Ha Hb Hf. rewrite !app_assoc_s. apply strip_padded.
+  - now destruct (pad_props a Ha).
+  - rewrite forall_s_app. destruct (pad_props b Hb) as (-> & _). reflexivity.
+  - now apply spell_nosp.
+Qed.
+Lemma keep_blank_line : forall a, forall_s pad_char a = true -> keep_line (a ++ String c_nl "")%string = false.
+Proof.
+  intros a Ha. unfold keep_line. rewrite strip_spaces; [reflexivity|].
+  rewrite forall_s_app. destruct (pad_props a Ha) as (-> & _). reflexivity.
 Qed.
 
+Lemma file_lines_render_tail : forall items tail, forallb item_ok items = true ->
+  map strip (filter keep_line (lines (render items ++ tail)%string)) = map spell (forms_of items) ++ map strip (filter keep_line (lines tail)).
+Proof.
+  induction items as [|i r IH]; intros tail H; cbn [render forallb forms_of] in *; [reflexivity|].
+  apply andb_true_iff in H as [H1 H2]. rewrite render_item_body, !app_assoc_s. cbn [append].
+  destruct (item_body_props i H1) as [Hnl _]. rewrite lines_line by assumption. cbn [filter].
+  destruct i as [a|a f b]; cbn [item_body item_ok] in *.
+  - rewrite keep_blank_line by assumption. now apply IH.
+  - apply andb_true_iff in H1 as [H1 Hf]. apply andb_true_iff in H1 as [Ha Hb].
+    unfold keep_line at 1. rewrite strip_tgt_line, (spell_nonempty f Hf) by assumption. cbn [negb map app].
+    rewrite strip_tgt_line by assumption. f_equal. now apply IH.
+Qed.
 Lemma file_lines_render : forall items, forallb item_ok items = true ->
   map strip (filter keep_line (lines (render items))) = map spell (forms_of items).
 Proof.
-  induction items as [|i r IH]; intros H; cbn [render forallb forms_of] in *; [reflexivity|].
-  apply andb_true_iff in H as [H1 H2]. rewrite render_item_body, app_assoc_s. cbn [append].
-  destruct (item_body_props i H1) as [Hnl _]. rewrite lines_line by assumption. cbn [filter].
-  destruct i as [|a f b].
-  - cbn. now apply IH.
-  - cbn [item_body item_ok] in *. apply andb_true_iff in H1 as [H1 Hf]. apply andb_true_iff in H1 as [Ha Hb].
-    pose proof (spell_nonempty f Hf) as Hne.
-    assert (Hk : keep_line ((a ++ spell f ++ b) ++ String c_nl "")%string = true).
-    { destruct (a ++ spell f ++ b)%string as [|c r'] eqn:E.
-      - exfalso. apply (f_equal is_empty) in E. rewrite !is_empty_app, Hne, andb_false_r in E. cbn in E. destruct (is_empty a); discriminate.
-      - apply keep_line_nonempty. }
-    rewrite Hk. cbn [map forms_of]. f_equal; [|now apply IH].
-    rewrite !app_assoc_s. apply strip_padded.
-    + now destruct (pad_props a Ha).
-    + rewrite forall_s_app. destruct (pad_props b Hb) as (-> & _). reflexivity.
-    + now apply spell_nosp.
+  intros items H. rewrite <- (app_nil_r_s (render items)). rewrite file_lines_render_tail by assumption. cbn. apply app_nil_r.
 Qed.
 
 Lemma map_res_forms : forall fs d, forallb form_ok fs = true ->
@@ -502,12 +513,42 @@ Proof.
   apply map_res_forms. now apply forms_of_ok.
 Qed.
 
-Lemma file_whitespace_line_refuted : exists pad, pad <> "" /\ forall_s pad_char pad = true
-  /\ file_targets (pad ++ String c_nl "")%string 22 = Ok [("", 22)].
-Proof. exists " ". repeat split; try reflexivity. discriminate. Qed.
+(* the same with a last line that has no newline *)
+Lemma lines_cons : forall c r, Ascii.eqb c c_nl = false ->
+  lines (String c r) = match lines r with [] => [String c ""] | l :: ls => String c l :: ls end.
+Proof. intros c r H. cbn [lines]. now rewrite H. Qed.
+Lemma lines_single : forall r c, forall_s (fun d => negb (Ascii.eqb d c_nl)) (String c r) = true -> lines (String c r) = [String c r].
+Proof.
+  induction r as [|x r IH]; intros c H; cbn [forall_s] in H; apply andb_true_iff in H as [H1 H2]; apply negb_true_iff in H1;
+    rewrite lines_cons by assumption.
+  - reflexivity.
+  - rewrite (IH x) by exact H2. reflexivity.
+Qed.
+Lemma file_forms_no_final_newline : forall items a f b d, forallb item_ok items = true -> item_ok (Tgt a f b) = true ->
+  file_targets (render items ++ a ++ spell f ++ b)%string d = Ok (map (fun g => endpoint g d) (forms_of items ++ [f])).
+Proof.
+  intros items a f b d H Hi. pose proof Hi as Hi'. cbn [item_ok] in Hi. apply andb_true_iff in Hi as [Hi Hf]. apply andb_true_iff in Hi as [Ha Hb].
+  destruct (item_body_props _ Hi') as [Tnl Tcr]. cbn [item_body] in Tnl, Tcr.
+  unfold file_targets, file_lines. rewrite univ_nl_id by (rewrite forall_s_app, render_no_cr, Tcr by assumption; reflexivity).
+  rewrite file_lines_render_tail by assumption.
+  assert (Hs : strip (a ++ spell f ++ b)%string = spell f).
+  { apply strip_padded; [now destruct (pad_props _ Ha) | now destruct (pad_props _ Hb) | now apply spell_nosp]. }
+  assert (Hne : is_empty (a ++ spell f ++ b)%string = false) by (rewrite !is_empty_app, (spell_nonempty f Hf), andb_false_r; destruct (is_empty a); reflexivity).
+  destruct (a ++ spell f ++ b)%string as [|c r] eqn:E; [discriminate|].
+  rewrite lines_single by assumption. cbn [filter]. unfold keep_line. rewrite Hs, (spell_nonempty f Hf). cbn [negb map]. rewrite Hs.
+  replace (map spell (forms_of items) ++ [spell f]) with (map spell (forms_of items ++ [f])) by (rewrite map_app; reflexivity).
+  apply map_res_forms. rewrite forallb_app, forms_of_ok by assumption. cbn. now rewrite Hf.
+Qed.
+
+(* whitespace-only lines are skipped like blank lines: they are `Blank pad` items of file_forms; e.g. *)
+Lemma file_whitespace_line_skipped : forall pad, forall_s pad_char pad = true -> file_lines (pad ++ String c_nl "")%string = [].
+Proof.
+  intros pad H. change ((pad ++ String c_nl "")%string) with (render_item (Blank pad)).
+  rewrite <- (app_nil_r_s (render_item (Blank pad))). change ((render_item (Blank pad) ++ "")%string) with (render [Blank pad]).
+  rewrite file_lines_items; [reflexivity|]. cbn. now rewrite H.
+Qed.
 
 (* ------------------------------------------------------------------ family preference *)
-Definition fam_is (f : Z) (e : entry) : bool := e_fam e =? f.
 Lemma insert_fam_front : forall before x l, (forall y, In y l -> before (e_fam y) (e_fam x) = false) -> insert_fam before x l = x :: l.
 Proof. intros before x [|y l] H; cbn; [reflexivity|]. rewrite H by now left. reflexivity. Qed.
 Lemma insert_fam_skip : forall before x a b, (forall y, In y a -> before (e_fam y) (e_fam x) = true) ->
@@ -536,7 +577,6 @@ Proof.
     + intros y Hy. apply filter_In in Hy as [_ Hy]. unfold fam_is in Hy. apply Z.eqb_eq in Hy. rewrite Hy, Hx. assumption.
 Qed.
 
-Definition dual (l : list entry) : Prop := Forall (fun e => e_fam e = AF_INET \/ e_fam e = AF_INET6) l.
 Lemma family_order : forall l, dual l ->
   order_pref [4; 6] l = filter (fam_is AF_INET) l ++ filter (fam_is AF_INET6) l
   /\ order_pref [6; 4] l = filter (fam_is AF_INET6) l ++ filter (fam_is AF_INET) l.
@@ -564,10 +604,9 @@ Proof.
   intros. unfold resolve_list. rewrite filter_In, order_pref_in. rewrite Z.eqb_eq. tauto.
 Qed.
 
-Definition table (r : resolver) (h : string) : list entry := match assoc h r with Some l => l | None => [] end.
 Lemma gai_in : forall r h fam l e, gai r h fam = Some l -> In e l -> In e (table r h) /\ (fam = 0 \/ e_fam e = fam).
 Proof.
-  intros r h fam l e H Hin. unfold gai in H. fold (table r h) in H.
+  intros r h fam l e H Hin. unfold gai in H.
   destruct (filter (fun e0 => (fam =? 0) || (fam =? e_fam e0)) (table r h)) eqn:E; [discriminate|].
   injection H as <-. rewrite <- E in Hin. apply filter_In in Hin as [H1 H2]. split; [assumption|].
   apply orb_true_iff in H2 as [H2 | H2]; apply Z.eqb_eq in H2; [now left | now right].
@@ -623,17 +662,9 @@ Proof.
     "h", 22, "10.0.0.1", "fd00::1". repeat split.
 Qed.
 
-(* connection rate test (dheat.py _resolve_hostname) against the audit (ssh_socket.py _resolve) *)
-Lemma rate_test_partial : forall pref l, List.length pref <> 2%nat -> rate_first l = hd_error (resolve_list pref l).
-Proof.
-  intros pref l H. unfold rate_first, resolve_list. destruct pref as [|a [|b [|c t]]]; cbn [order_pref]; try reflexivity.
-  cbn in H. contradiction.
-Qed.
-Lemma rate_test_order_refuted : exists pref l, pref = [4; 6] /\ dual l /\ rate_first l <> hd_error (resolve_list pref l).
-Proof.
-  exists [4; 6], [{| e_fam := AF_INET6; e_type := SOCK_STREAM; e_ip := "fd00::1" |}; {| e_fam := AF_INET; e_type := SOCK_STREAM; e_ip := "10.0.0.1" |}].
-  split; [reflexivity|]. split; [repeat constructor; cbn; tauto|]. vm_compute. discriminate.
-Qed.
+(* connection rate test (dheat.py _resolve_hostname) against the audit (ssh_socket.py _resolve): same address, every preference *)
+Lemma rate_test_same_address : forall pref l, rate_first pref l = hd_error (resolve_list pref l).
+Proof. intros pref l. unfold rate_first, resolve_list, order_pref. reflexivity. Qed.
 
 (* ------------------------------------------------------------------ labels *)
 Lemma break_at_app : forall c s a b, break_at c s = (a, b) -> s = (a ++ b)%string.
@@ -696,8 +727,6 @@ Proof.
   - intros g Hin. rewrite Hg in Hin. destruct Hin as [<- | []]. reflexivity.
   - intros c Hin. destruct (Hc c Hin) as (e & _ & _ & _ & ->). reflexivity.
 Qed.
-Definition ports_valid (o : obs) : Prop :=
-  (forall g, In g (o_gai o) -> port_ok (snd (fst g)) = true) /\ (forall c, In c (o_conn o) -> port_ok (snd c) = true).
 Lemma audit_ports_valid : forall pref r h p, port_ok p = true -> ports_valid (audit_refused pref r h p).
 Proof.
   intros pref r h p Hp. destruct (audit_ports pref r h p) as [Hg Hc]. split.
@@ -710,55 +739,83 @@ Proof.
   intros arg oport flags r o. unfold run_single. destruct (cli_single arg oport) as [| e | h p] eqn:E; cbn; try tauto.
   intros [<- | []]. apply audit_ports_valid. eapply cli_single_port_ok. exact E.
 Qed.
-Lemma run_single_bad_option : forall arg P flags r, port_ok P = false -> run_single arg (Some P) flags r = RExit.
-Proof. intros. unfold run_single. now rewrite cli_bad_port_option. Qed.
-Lemma run_single_bad_named : forall f flags r, form_ok f = true -> port_ok (form_port f 22) = false ->
-  run_single (spell f) None flags r = RCrash [].
+(* nothing is resolved or dialled unless the run completes *)
+Lemma run_single_rejected_clean : forall arg oport flags r, match run_single arg oport flags r with RDone _ => True | o => obs_of o = [] end.
+Proof. intros. unfold run_single. destruct (cli_single arg oport); cbn; auto. Qed.
+Lemma run_single_bad_option : forall arg P flags r, port_ok P = false -> obs_of (run_single arg (Some P) flags r) = [].
+Proof.
+  intros arg P flags r H. unfold run_single. destruct (cli_single arg (Some P)) as [| e | h p] eqn:E; try reflexivity.
+  exfalso. exact (cli_bad_port_option arg P h p H E).
+Qed.
+Lemma run_single_bad_option_form : forall f P flags r, form_ok f = true -> port_ok P = false -> run_single (spell f) (Some P) flags r = RExit.
+Proof. intros. unfold run_single. now rewrite cli_bad_port_option_form. Qed.
+Lemma run_single_bad_named : forall f oport flags r, form_ok f = true -> oport_ok oport = true ->
+  port_ok (form_port f (default_port oport)) = false -> run_single (spell f) oport flags r = RCrash [].
 Proof. intros. unfold run_single. now rewrite cli_bad_port_named. Qed.
-Lemma run_single_named : forall f flags r, form_ok f = true -> port_ok (form_port f 22) = true ->
-  run_single (spell f) None flags r = RDone [audit_refused (pref_of_flags flags) r (form_host f) (form_port f 22)].
-Proof. intros. unfold run_single. now rewrite cli_forms_no_port_option. Qed.
+Lemma run_single_named : forall f oport flags r, form_ok f = true -> oport_ok oport = true ->
+  port_ok (form_port f (default_port oport)) = true ->
+  run_single (spell f) oport flags r = RDone [audit_refused (pref_of_flags flags) r (form_host f) (form_port f (default_port oport))].
+Proof. intros. unfold run_single. now rewrite cli_forms. Qed.
 
+Lemma validate_ok_ports : forall ts d l, validate ts d = VOk -> map_res (fun t => parse_host_and_port t d) ts = Ok l ->
+  forallb (fun t => port_ok (snd t)) l = true.
+Proof.
+  induction ts as [|t ts IH]; intros d l Hv Hm; cbn in *.
+  - injection Hm as <-. reflexivity.
+  - destruct (parse_host_and_port t d) as [[h p]|]; [|discriminate]. destruct (port_ok p) eqn:Ep; [|discriminate].
+    cbn in Hm. destruct (map_res (fun t0 => parse_host_and_port t0 d) ts) as [l'|] eqn:E; [|discriminate].
+    cbn in Hm. injection Hm as <-. cbn. rewrite Ep. now apply (IH d).
+Qed.
+Lemma run_file_rejected_clean : forall content oport flags r, match run_file content oport flags r with RDone _ => True | o => obs_of o = [] end.
+Proof.
+  intros. unfold run_file. destruct (negb (oport_ok oport)); [reflexivity|].
+  destruct (file_lines content); [reflexivity|]. destruct (validate _ _); try reflexivity.
+  destruct (file_targets content (default_port oport)); cbn; auto.
+Qed.
 Lemma run_file_ports : forall content oport flags r o, In o (obs_of (run_file content oport flags r)) -> ports_valid o.
 Proof.
-  intros content oport flags r o. unfold run_file.
-  destruct (match oport with Some p => if port_ok p then Some p else None | None => Some 22 end) as [d|] eqn:D; [|cbn; tauto].
-  assert (Hd : port_ok d = true).
-  { destruct oport as [p|]; [destruct (port_ok p) eqn:E; [injection D as <-; assumption | discriminate] | injection D as <-; reflexivity]. }
-  destruct (file_lines content) as [|t0 ts0].
-  - cbn. intros [<- | []]. now apply audit_ports_valid.
-  - destruct (file_targets content d) as [ts|]; [|cbn; tauto].
-    assert (H : In o (map (fun t => audit_refused (pref_of_flags flags) r (fst t) (snd t)) (filter (fun t => port_ok (snd t)) ts)) -> ports_valid o).
-    { intros Hin. apply in_map_iff in Hin as (t & <- & Ht). apply filter_In in Ht as [_ Ht]. now apply audit_ports_valid. }
-    destruct (forallb (fun t => port_ok (snd t)) ts); cbn; exact H.
+  intros content oport flags r o. unfold run_file. destruct (negb (oport_ok oport)); [cbn; tauto|].
+  unfold file_targets. destruct (file_lines content) as [|t0 ts0] eqn:EL; [cbn; tauto|].
+  destruct (validate (t0 :: ts0) (default_port oport)) eqn:Ev; try (cbn; tauto).
+  destruct (map_res _ (t0 :: ts0)) as [l|] eqn:Em; [|cbn; tauto].
+  cbn [obs_of]. intros Hin. apply in_map_iff in Hin as (t & <- & Ht). apply audit_ports_valid.
+  pose proof (validate_ok_ports _ _ _ Ev Em) as Hall. rewrite forallb_forall in Hall. now apply Hall.
 Qed.
 Lemma run_file_bad_option : forall content P flags r, port_ok P = false -> run_file content (Some P) flags r = RExit.
-Proof. intros. unfold run_file. now rewrite H. Qed.
+Proof. intros. unfold run_file. cbn [oport_ok]. now rewrite H. Qed.
+(* a file without any target is a usage error *)
+Lemma run_file_no_target : forall content oport flags r, file_lines content = [] -> run_file content oport flags r = RExit.
+Proof. intros content oport flags r H. unfold run_file. destruct (negb (oport_ok oport)); [reflexivity|]. now rewrite H. Qed.
+
+Lemma validate_forms : forall fs d, forallb form_ok fs = true ->
+  validate (map spell fs) d = if forallb (fun f => port_ok (form_port f d)) fs then VOk else VExit.
+Proof.
+  induction fs as [|f fs IH]; intros d H; cbn [map validate forallb] in *; [reflexivity|].
+  apply andb_true_iff in H as [H1 H2]. rewrite forms_parse by assumption. cbn [endpoint].
+  destruct (port_ok (form_port f d)); cbn [andb]; [now apply IH | reflexivity].
+Qed.
+(* one out-of-range port anywhere in a file of documented spellings: usage error, nothing resolved or dialled *)
+Lemma run_file_bad_port_rejected : forall items oport flags r, forallb item_ok items = true ->
+  forallb (fun f => port_ok (form_port f (default_port oport))) (forms_of items) = false ->
+  run_file (render items) oport flags r = RExit.
+Proof.
+  intros items oport flags r Hok Hbad. unfold run_file. destruct (negb (oport_ok oport)); [reflexivity|].
+  rewrite file_lines_items by assumption. destruct (map spell (forms_of items)) eqn:E; [reflexivity|]. rewrite <- E.
+  rewrite validate_forms by now apply forms_of_ok. now rewrite Hbad.
+Qed.
 
 Lemma filter_all : forall {A} (q : A -> bool) l, forallb q l = true -> filter q l = l.
 Proof.
   induction l as [|x l IH]; intros H; cbn in *; [reflexivity|]. apply andb_true_iff in H as [H1 H2]. rewrite H1, IH by assumption. reflexivity.
 Qed.
 (* a file of documented spellings whose ports are all valid: every target is audited, in order, and reported *)
-Lemma run_file_forms : forall items flags r, forallb item_ok items = true -> forms_of items <> [] ->
-  forallb (fun f => port_ok (form_port f 22)) (forms_of items) = true ->
-  run_file (render items) None flags r
-  = RDone (map (fun f => audit_refused (pref_of_flags flags) r (form_host f) (form_port f 22)) (forms_of items)).
+Lemma run_file_forms : forall items oport flags r, forallb item_ok items = true -> forms_of items <> [] -> oport_ok oport = true ->
+  forallb (fun f => port_ok (form_port f (default_port oport))) (forms_of items) = true ->
+  run_file (render items) oport flags r
+  = RDone (map (fun f => audit_refused (pref_of_flags flags) r (form_host f) (form_port f (default_port oport))) (forms_of items)).
 Proof.
-  intros items flags r Hok Hne Hp. unfold run_file. rewrite file_lines_items, file_forms by assumption.
-  destruct (forms_of items) as [|f fs] eqn:E; [contradiction|]. rewrite <- E in *. clear E.
-  destruct (map spell (forms_of items)) eqn:E2; [destruct (forms_of items); [contradiction | discriminate]|]. clear E2.
-  assert (Hall : forallb (fun t : string * Z => port_ok (snd t)) (map (fun f => endpoint f 22) (forms_of items)) = true).
-  { rewrite forallb_forall in *. intros t Ht. apply in_map_iff in Ht as (g & <- & Hg). cbn. now apply Hp. }
-  rewrite Hall, filter_all by assumption. rewrite map_map. reflexivity.
+  intros items oport flags r Hok Hne Ho Hp. unfold run_file. rewrite Ho. cbn [negb].
+  rewrite file_lines_items, file_forms by assumption.
+  destruct (map spell (forms_of items)) eqn:E2; [destruct (forms_of items); [contradiction | discriminate]|]. rewrite <- E2.
+  rewrite validate_forms, Hp by now apply forms_of_ok. rewrite map_map. reflexivity.
 Qed.
-(* recorded finding: one out-of-range port in the file aborts the run after the other targets were dialled *)
-Lemma run_file_bad_port_refuted : exists content r o,
-  run_file content None [] r = RCrash [o] /\ o_conn o <> [] /\ file_targets content 22 = Ok [("a", 22); ("b", 70000)].
-Proof.
-  exists (bs [97; 10; 98; 58; 55; 48; 48; 48; 48; 10]%nat), [("a", [{| e_fam := AF_INET; e_type := SOCK_STREAM; e_ip := "10.0.0.1" |}])].
-  eexists. split; [vm_compute; reflexivity|]. split; [discriminate | reflexivity].
-Qed.
-(* recorded finding: a file without any target audits the host '' *)
-Lemma run_file_no_target_refuted : exists content r, file_lines content = [] /\ run_file content None [] r = RDone [audit_refused [] r "" 22].
-Proof. exists (String c_nl ""), []. split; reflexivity. Qed.
